@@ -329,7 +329,7 @@ impl Map {
             || Integer::from_min(0),
             |&max| {
                 let max = match offset {
-                    Some(offset_val) => std::cmp::max(0, max - offset_val as i64),
+                    Some(offset_val) => std::cmp::max(0, max.saturating_sub(offset_val as i64)),
                     None => max,
                 };
                 Integer::from_interval(
@@ -1191,10 +1191,9 @@ impl Set {
         let right_size_max = right.size().max().cloned().unwrap_or(<i64 as Bound>::max());
         // TODO Improve this
         match operator {
-            SetOperator::Union => Integer::from_interval(
-                left_size_max.min(right_size_max),
-                left_size_max + right_size_max,
-            ),
+            SetOperator::Union => {
+                Integer::from_interval(0, left_size_max.saturating_add(right_size_max))
+            }
             SetOperator::Except => Integer::from_interval(0, left_size_max),
             SetOperator::Intersect => Integer::from_interval(0, left_size_max.min(right_size_max)),
         }
